@@ -192,6 +192,97 @@ theorem top_again (he : Exec c xs ls) (ha : ∀ i, Amb c B (xs i)) (hf : Fair c 
     · rw [(ha i).nq] at hw
       cases hw.1
 
+theorem annB_mono (he : Exec c xs ls) (i d : Nat) : (xs i).g.annB ≤ (xs (i + d)).g.annB := by
+  induction d with
+  | zero => exact Nat.le_refl _
+  | succ d ih =>
+    rcases exec_cases he (i + d) with ⟨_, h⟩ | ⟨l, _, h⟩
+    · rw [show i + (d + 1) = i + d + 1 from rfl, h]; exact ih
+    · have := (xstep_some h).2
+      rw [show i + (d + 1) = i + d + 1 from rfl, this, gstep_annB]
+      omega
+
+theorem annT_mono (he : Exec c xs ls) (i d : Nat) : (xs i).g.annT ≤ (xs (i + d)).g.annT := by
+  induction d with
+  | zero => exact Nat.le_refl _
+  | succ d ih =>
+    rcases exec_cases he (i + d) with ⟨_, h⟩ | ⟨l, _, h⟩
+    · rw [show i + (d + 1) = i + d + 1 from rfl, h]; exact ih
+    · have := (xstep_some h).2
+      rw [show i + (d + 1) = i + d + 1 from rfl, this, gstep_annT]
+      omega
+
+/-- one more block gets processed whenever one is outstanding -/
+theorem blk_next (he : Exec c xs ls) (ha : ∀ i, Amb c B (xs i)) (hf : Fair c xs ls) (p : Nat) :
+    LeadsTo xs (fun x => x.g.procB = p ∧ p < x.g.annB) (fun x => p < x.g.procB) := by
+  have h1 : LeadsTo xs (fun x => x.s.hp = .blk ∧ x.g.procB = p) (fun x => p < x.g.procB) :=
+    wf_rule he ha .hDoneBlk (fun x _ hp => by simp [fire, hp.1])
+      (fun l x x' hx hx' hs hp => un_blk1 hx hx' hs hp) (hf.weak _ rfl)
+  have h0 : LeadsTo xs (fun x => x.g.procB = p ∧ x.s.hp ≠ .blk ∧ 0 < x.s.nb) (fun x => p < x.g.procB) :=
+    LeadsTo.trans (sf_rule he ha .hTakeBlk (top_again he ha hf) (fun x _ hp hr => by simp [fire, hr, hp.2.2])
+      (fun l x x' hx hx' hs hp => un_blk0 hx hx' hs hp) hf.blk) h1
+  intro i hp
+  have hc := (ha i).xinv.blkC
+  by_cases hb : (xs i).s.hp = .blk
+  · exact h1 i ⟨hb, hp.1⟩
+  · refine h0 i ⟨hp.1, hb, ?_⟩
+    rw [if_neg hb] at hc
+    omega
+
+theorem tx_next (he : Exec c xs ls) (ha : ∀ i, Amb c B (xs i)) (hf : Fair c xs ls) (p : Nat) :
+    LeadsTo xs (fun x => x.g.procT = p ∧ p < x.g.annT) (fun x => p < x.g.procT) := by
+  have h1 : LeadsTo xs (fun x => x.s.hp = .tx ∧ x.g.procT = p) (fun x => p < x.g.procT) :=
+    wf_rule he ha .hDoneTx (fun x _ hp => by simp [fire, hp.1])
+      (fun l x x' hx hx' hs hp => un_tx1 hx hx' hs hp) (hf.weak _ rfl)
+  have h0 : LeadsTo xs (fun x => x.g.procT = p ∧ x.s.hp ≠ .tx ∧ 0 < x.s.ntx) (fun x => p < x.g.procT) :=
+    LeadsTo.trans (sf_rule he ha .hTakeTx (top_again he ha hf) (fun x _ hp hr => by simp [fire, hr, hp.2.2])
+      (fun l x x' hx hx' hs hp => un_tx0 hx hx' hs hp) hf.tx) h1
+  intro i hp
+  have hc := (ha i).xinv.txC
+  by_cases hb : (xs i).s.hp = .tx
+  · exact h1 i ⟨hb, hp.1⟩
+  · refine h0 i ⟨hp.1, hb, ?_⟩
+    rw [if_neg hb] at hc
+    omega
+
+/-- every block announced by instant `i` has been processed by some instant `j` -/
+theorem blocks_live (he : Exec c xs ls) (ha : ∀ i, Amb c B (xs i)) (hf : Fair c xs ls) (i : Nat) :
+    ∃ j, i ≤ j ∧ (xs i).g.annB ≤ (xs j).g.procB := by
+  have key : ∀ d i', i ≤ i' → (xs i).g.annB ≤ (xs i').g.procB + d → ∃ j, i' ≤ j ∧ (xs i).g.annB ≤ (xs j).g.procB := by
+    intro d
+    induction d with
+    | zero => intro i' _ h; exact ⟨i', Nat.le_refl _, h⟩
+    | succ d ih =>
+      intro i' hii' h
+      by_cases hdone : (xs i).g.annB ≤ (xs i').g.procB
+      · exact ⟨i', Nat.le_refl _, hdone⟩
+      · obtain ⟨e, rfl⟩ := Nat.exists_eq_add_of_le hii'
+        have hm := annB_mono he i e
+        obtain ⟨j, hj, hlt⟩ := blk_next he ha hf (xs (i + e)).g.procB (i + e) ⟨rfl, by omega⟩
+        obtain ⟨j', hj', h'⟩ := ih j (by omega) (by omega)
+        exact ⟨j', by omega, h'⟩
+  have hc := (ha i).xinv.blkC
+  obtain ⟨j, hj, h⟩ := key ((xs i).g.annB) i (Nat.le_refl i) (by omega)
+  exact ⟨j, hj, h⟩
+
+theorem txs_live (he : Exec c xs ls) (ha : ∀ i, Amb c B (xs i)) (hf : Fair c xs ls) (i : Nat) :
+    ∃ j, i ≤ j ∧ (xs i).g.annT ≤ (xs j).g.procT := by
+  have key : ∀ d i', i ≤ i' → (xs i).g.annT ≤ (xs i').g.procT + d → ∃ j, i' ≤ j ∧ (xs i).g.annT ≤ (xs j).g.procT := by
+    intro d
+    induction d with
+    | zero => intro i' _ h; exact ⟨i', Nat.le_refl _, h⟩
+    | succ d ih =>
+      intro i' hii' h
+      by_cases hdone : (xs i).g.annT ≤ (xs i').g.procT
+      · exact ⟨i', Nat.le_refl _, hdone⟩
+      · obtain ⟨e, rfl⟩ := Nat.exists_eq_add_of_le hii'
+        have hm := annT_mono he i e
+        obtain ⟨j, hj, hlt⟩ := tx_next he ha hf (xs (i + e)).g.procT (i + e) ⟨rfl, by omega⟩
+        obtain ⟨j', hj', h'⟩ := ih j (by omega) (by omega)
+        exact ⟨j', by omega, h'⟩
+  obtain ⟨j, hj, h⟩ := key ((xs i).g.annT) i (Nat.le_refl i) (by omega)
+  exact ⟨j, hj, h⟩
+
 end exec
 
 end MW.Lemmas.ProtoLive
